@@ -305,6 +305,11 @@ class Result:
             print("BROKEN property=%s %d of %d evaluations were inconclusive: the monitors could not observe enough to give a verdict"
                   % (self.pid, len(self.inconclusive), self.evaluations))
             return 2
+        missing = [k for k in getattr(self, "required", []) if not self.extra.get(k)]
+        if missing:
+            # a route of the workload that never ran (or whose monitor never got to judge anything) is not "held"
+            print("BROKEN property=%s these parts of the workload observed nothing: %s" % (self.pid, ", ".join(missing)))
+            return 2
         if self.evaluations == 0 or len(self.nontrivial) + self.nontrivial_counted < 2:
             print("BROKEN property=%s the monitors observed nothing (evaluations=%d, nontrivial=%d)"
                   % (self.pid, self.evaluations, len(self.nontrivial)))
